@@ -3,6 +3,12 @@ import gen
 import c19
 
 PROPS = {
+    "C02": dict(
+        files=[("op", "c02_op.rs")],
+        generators=[gen.gen_c02],
+        bounds="table membership: every ASCII key of <=3 bytes; one-edit neighbours (substitute/insert/delete/case) of all 35 names; literal identity per shape",
+        out="non-ASCII keys; keys further than one edit from a name and longer than 3 bytes; the all/some/none literal-array exception (C14); apply itself (unit = Parsed::from_value / evaluate)",
+    ),
     "C05": dict(
         files=[("value", "c05_value.rs"), ("op", "c05_op.rs")],
         generators=[gen.gen_c05],
